@@ -2,3 +2,7 @@
 -- that a plain `lake build` checks everything.
 import ImathVerif.Props.C01
 import ImathVerif.Props.C20
+import ImathVerif.Props.C14
+import ImathVerif.Props.C17
+import ImathVerif.Props.C04
+import ImathVerif.Props.C05
